@@ -86,6 +86,9 @@ def _kappa(rng, lead):
     return np.asarray(k, dtype=float)
 
 
+_GD = [0]
+
+
 def gen(rng, fam, tier, D=None, kind=None):
     lead = _lead(rng)
     N = int(rng.integers(1, 5))
@@ -103,6 +106,11 @@ def gen(rng, fam, tier, D=None, kind=None):
             cov = 10.0 ** rng.uniform(-4, 4, size=(*lead, D))
             if rng.random() < 0.2:
                 cov = rng.integers(1, 10, size=(*lead, D)).astype(float)
+            _GD[0] += 1
+            if _GD[0] % 4 == 0:
+                # a tight cloud far from the origin (|mean| / std up to 1e8): y^2/v - 2 y m / v + m^2/v would cancel
+                mean = rng.uniform(1.0, 3.0, size=(*lead, D)) * 1e5
+                cov = 10.0 ** rng.uniform(-6, -2, size=(*lead, D))
             y = mean[..., None, :] + rng.normal(size=(*lead, N, D)) * np.sqrt(cov)[..., None, :] * float(rng.choice([0.3, 1.0, 3.0]))
         else:
             cov = np.asarray(10.0 ** rng.uniform(-4, 4, size=lead), dtype=float)
